@@ -39,6 +39,7 @@ impl Scripted {
             let w = cx.case.w();
             w.h.adapters[a].polls.len() - 1
         };
+        let i0 = cx_now(cx);
         // model: what the adapter must have set up before calling us
         let floor = cx.floor;
         cx.floor = cx.guards.len();
@@ -101,7 +102,14 @@ impl Scripted {
         cx.pop_to_floor();
         cx.floor = floor;
         // model: the adapter's own guards are released after we return (closed by `drive`)
-        cx.case.w().h.adapters[a].polls[pi].end = end.clone();
+        let i1 = cx_now(cx);
+        {
+            let mut w = cx.case.w();
+            let p = &mut w.h.adapters[a].polls[pi];
+            p.end = end.clone();
+            p.i0 = i0;
+            p.i1 = i1;
+        }
         end
     }
 }
@@ -377,6 +385,9 @@ pub fn drive(cx: &mut VtCtx, a_sel: u16, entry: Entry, nested: bool) {
     }) else {
         return;
     };
+    if cx.case.opts.auto_probe {
+        cx.op_probe();
+    }
     let t0 = {
         let mut w = cx.case.w();
         let t0 = w.tick();
@@ -394,6 +405,9 @@ pub fn drive(cx: &mut VtCtx, a_sel: u16, entry: Entry, nested: bool) {
             scope: None,
             eop_local: None,
             past_end: false,
+            i0: 0,
+            i1: 0,
+            close_err: false,
         });
         if nested {
             w.h.label("nested_poll");
@@ -483,6 +497,13 @@ pub fn drive(cx: &mut VtCtx, a_sel: u16, entry: Entry, nested: bool) {
     };
     if mig {
         w.h.label("poll_migration");
+    }
+    if entry == Entry::PollClose && w.h.adapters[a].polls[pi].end == PollEnd::Alt && !done {
+        w.h.adapters[a].polls[pi].close_err = true;
+    }
+    drop(w);
+    if cx.case.opts.auto_probe {
+        cx.op_probe();
     }
 }
 
